@@ -213,6 +213,134 @@ async fn server_case(env: &Env, client: &Client, raw: &quinn::Connection, run: u
     Ok(())
 }
 
+// ------------------------------------------------------------------ concurrent first registrations
+/// C01 / C02 ("the" router of a topic): several peers register on a topic the server has never
+/// seen, their registration frames leaving in one burst from a single-threaded runtime so that
+/// the server's tasks run the lookup/creation concurrently.  Afterwards everybody who was told
+/// Ok must be talking to the same router.
+async fn race_round(raw: &quinn::Connection, log: &EvLog, topic: &str, pattern: &str, n: usize, r: u64) -> Result<String> {
+    let tn = TopicName::try_from(topic)?;
+    let lead = (r as usize) % n; // position of the publisher / replier among the stream opens
+    let mut sts = vec![];
+    for _ in 0..n {
+        sts.push(raw_stream(raw).await?);
+    }
+    let roles: Vec<&str> = (0..n)
+        .map(|i| match (pattern, i == lead) {
+            ("pubsub", true) => "pub",
+            ("pubsub", false) => "sub",
+            (_, true) => "rep",
+            (_, false) => "req",
+        })
+        .collect();
+    let sends = sts.iter_mut().zip(roles.iter()).map(|(st, role)| st.send(reg_frame(role, tn.clone())));
+    for x in futures::future::join_all(sends).await {
+        x?;
+    }
+    for (i, st) in sts.iter_mut().enumerate() {
+        let (kind, code) = first_reply(st).await;
+        log.emit("race_reply", json!({"i": i, "role": roles[i], "reply": kind, "code": code}));
+        if kind != "ok" {
+            return Ok(format!("registration {i} ({}) answered {kind}", roles[i]));
+        }
+    }
+    let mut lead_st = sts.remove(lead);
+    let msg = |s: String, h: Option<std::collections::HashMap<String, String>>| Frame::Message(MessagePayload { headers: h, message: Bytes::from(s) });
+    if pattern == "pubsub" {
+        // markers until every subscriber has seen one (its registration has been processed) ...
+        let mut seen = vec![false; sts.len()];
+        let deadline = tokio::time::Instant::now() + Duration::from_secs(5);
+        let mut k = 0;
+        while seen.iter().any(|x| !x) {
+            if tokio::time::Instant::now() > deadline {
+                let missing: Vec<usize> = seen.iter().enumerate().filter(|(_, x)| !**x).map(|(i, _)| i).collect();
+                return Ok(format!("subscribers {missing:?} were told Ok but receive nothing the publisher of the same topic sends"));
+            }
+            k += 1;
+            lead_st.send(msg(format!("marker{k}"), None)).await?;
+            for (i, st) in sts.iter_mut().enumerate() {
+                if !seen[i] {
+                    if let Ok(Some(Ok(Frame::Message(_)))) = tokio::time::timeout(Duration::from_millis(20), st.next()).await {
+                        seen[i] = true;
+                    }
+                }
+            }
+        }
+        // ... then three messages everybody must get
+        for j in 1..=3 {
+            lead_st.send(msg(format!("final{j}"), None)).await?;
+        }
+        for (i, st) in sts.iter_mut().enumerate() {
+            let deadline = tokio::time::Instant::now() + Duration::from_secs(5);
+            loop {
+                match tokio::time::timeout_at(deadline, st.next()).await {
+                    Ok(Some(Ok(Frame::Message(m)))) if &m.message[..] == b"final3" => break,
+                    Ok(Some(Ok(_))) => {}
+                    _ => return Ok(format!("subscriber {i} did not receive the last message")),
+                }
+            }
+        }
+    } else {
+        // the replier echoes; every requestor asks once and must be answered
+        let echo = tokio::spawn(async move {
+            while let Some(Ok(f)) = lead_st.next().await {
+                if let Frame::Message(m) = f {
+                    let mut body = b"re:".to_vec();
+                    body.extend_from_slice(&m.message);
+                    if lead_st.send(Frame::Message(MessagePayload { headers: m.headers, message: Bytes::from(body) })).await.is_err() {
+                        break;
+                    }
+                }
+            }
+        });
+        let mut res = "ok".to_string();
+        for (i, st) in sts.iter_mut().enumerate() {
+            let h = std::collections::HashMap::from([("req_id".to_string(), format!("{i}"))]);
+            st.send(msg(format!("q{i}"), Some(h))).await?;
+            match tokio::time::timeout(Duration::from_secs(5), st.next()).await {
+                Ok(Some(Ok(Frame::Message(m)))) if m.message[..] == *format!("re:q{i}").as_bytes() => {}
+                other => {
+                    res = format!("requestor {i} was told Ok but its request was not answered by the replier of the same topic: {:?}", other.map(|x| x.map(|y| y.map(|f| f.get_type()).map_err(|e| e.to_string()))));
+                    break;
+                }
+            }
+        }
+        echo.abort();
+        return Ok(res);
+    }
+    Ok("ok".into())
+}
+
+fn race_scenario(addr: std::net::SocketAddr, certs: PathBuf, log: EvLog, rounds: u64, seed: u64) -> Result<()> {
+    let th = std::thread::spawn(move || -> Result<()> {
+        let rt = tokio::runtime::Builder::new_current_thread().enable_all().build()?;
+        rt.block_on(async move {
+            let mut raw = raw_connect_trusted(addr, &certs).await?;
+            for r in 0..rounds {
+                if r % 6 == 5 {
+                    raw = raw_connect_trusted(addr, &certs).await?;
+                }
+                let pattern = if r % 3 == 2 { "reqrep" } else { "pubsub" };
+                let n = 3 + (r as usize * 5) % 7;
+                let topic = format!("/vrace{}/round{}", seed % 1000, r);
+                log.emit("case", json!({"run": 800_000 + r, "scenario": "race", "pattern": pattern, "peers": n, "topic": topic}));
+                let res = match tokio::time::timeout(Duration::from_secs(60), race_round(&raw, &log, &topic, pattern, n, r)).await {
+                    Ok(Ok(s)) => s,
+                    Ok(Err(e)) => {
+                        log.emit("harness_error", json!({"err": e.to_string()}));
+                        raw = raw_connect_trusted(addr, &certs).await?;
+                        continue;
+                    }
+                    Err(_) => "round did not finish within 60 s".to_string(),
+                };
+                log.emit("race_round", json!({"pattern": pattern, "peers": n, "res": res}));
+            }
+            Ok(())
+        })
+    });
+    th.join().map_err(|_| anyhow!("race thread panicked"))?
+}
+
 pub async fn cmd_server(args: Vec<String>) -> Result<()> {
     count_panics();
     let env = setup(&args, "server")?;
@@ -301,10 +429,16 @@ pub async fn cmd_server(args: Vec<String>) -> Result<()> {
         let r = isolation(&client, x, y, seed + i as u64).await;
         env.log.emit("iso", json!({"a": x, "b": y, "res": match &r { Ok(s) => s.clone(), Err(e) => format!("error: {e}") }}));
     }
+    // C01 / C02: concurrent first registrations on fresh topics
+    let rounds: u64 = arg(&args, "--race").and_then(|s| s.parse().ok()).unwrap_or(60);
+    {
+        let (addr, certs, log) = (env.server.addr, env.certs.clone(), env.log.clone());
+        tokio::task::spawn_blocking(move || race_scenario(addr, certs, log, rounds, seed)).await??;
+    }
     selium_server::verif::set_observer(None);
     env.log.flush();
     let _ = std::fs::remove_dir_all(&env.certs);
-    println!("{}", json!({"runs": cases.len(), "events": env.log.lines()}));
+    println!("{}", json!({"runs": cases.len() + rounds as usize, "events": env.log.lines()}));
     Ok(())
 }
 
